@@ -473,15 +473,29 @@ type fixture struct {
 
 const nPeers = 4
 
-func peerIP(prefix string, k int) string { return fmt.Sprintf("%s%d", prefix, 10+k) }
+// peers nPeers..2*nPeers-1 are "alias" peers: the IP address of peer k-nPeers, another source port (two control-plane
+// nodes behind one address); requests the UPF initiates go to <node id>:8805, i.e. never to an alias socket
+const nAlias = 4
+const aliasPort = 9805
+
+func peerIP(prefix string, k int) string { return fmt.Sprintf("%s%d", prefix, 10+k%nPeers) }
+
+func peerPort(k int) int {
+	if k >= nPeers {
+		return aliasPort
+	}
+	return 8805
+}
+
+func peerAddr(prefix string, k int) string { return fmt.Sprintf("%s:%d", peerIP(prefix, k), peerPort(k)) }
 
 func newFixture() (*fixture, error) {
 	pid := os.Getpid()
 	f := &fixture{prefix: fmt.Sprintf("127.%d.%d.", 1+(pid/250)%250, 1+pid%250), bseq: 0x800000}
 	var err error
 	f.upf, _ = net.ResolveUDPAddr("udp4", f.prefix+"1:8805")
-	for k := 0; k < nPeers; k++ {
-		a, _ := net.ResolveUDPAddr("udp4", peerIP(f.prefix, k)+":8805")
+	for k := 0; k < nPeers+nAlias; k++ {
+		a, _ := net.ResolveUDPAddr("udp4", peerAddr(f.prefix, k))
 		c, e := net.ListenUDP("udp4", a)
 		if e != nil {
 			return nil, e
@@ -966,21 +980,29 @@ func setupLogger() {
 }
 
 func keyToPeer(prefix, key string) (int, uint64) {
-	// "127.a.b.X:8805-SEQ"
+	// "127.a.b.X:8805-SEQ" (or port 9805: alias peer)
 	i := strings.LastIndex(key, "-")
 	if i < 0 {
 		return -1, 0
 	}
 	seq, _ := strconv.ParseUint(key[i+1:], 10, 64)
 	addr := key[:i]
-	if !strings.HasPrefix(addr, prefix) || !strings.HasSuffix(addr, ":8805") {
+	off := 0
+	switch {
+	case strings.HasSuffix(addr, ":8805"):
+	case strings.HasSuffix(addr, fmt.Sprintf(":%d", aliasPort)):
+		off = nPeers
+	default:
 		return -1, seq
 	}
-	x, err := strconv.Atoi(strings.TrimSuffix(strings.TrimPrefix(addr, prefix), ":8805"))
+	if !strings.HasPrefix(addr, prefix) {
+		return -1, seq
+	}
+	x, err := strconv.Atoi(strings.TrimPrefix(addr[:len(addr)-5], prefix))
 	if err != nil {
 		return -1, seq
 	}
-	return x - 10, seq
+	return x - 10 + off, seq
 }
 
 func runPfcpCase(f *fixture, c jCase) []oEvent {
@@ -1056,7 +1078,7 @@ func runPfcpCase(f *fixture, c jCase) []oEvent {
 			if ev.Tx {
 				tt = pfcp.TX
 			}
-			srv.NotifyTransTimeout(tt, fmt.Sprintf("%s:8805-%d", peerIP(f.prefix, ev.Peer), ev.Seq))
+			srv.NotifyTransTimeout(tt, fmt.Sprintf("%s-%d", peerAddr(f.prefix, ev.Peer), ev.Seq))
 			for j := 0; j < 20000; j++ {
 				if _, _, n := srv.VerifChanLens(); n == 0 {
 					break
